@@ -38,7 +38,8 @@ SPEC = dict(
 DETERMINISM_SLICE = 12
 BW_GRAPHS = ("saved", "nosaved", "mixed", "shared-trunk", "single-row")
 WIDE_M = 300
-MTL_GRAPHS = ("saved-saved", "nosaved-nosaved", "saved-nosaved", "nosaved-saved", "saved-penalty", "saved-regulariser", "saved-noparams")
+MTL_GRAPHS = ("saved-saved", "nosaved-nosaved", "saved-nosaved", "nosaved-saved", "saved-penalty", "saved-regulariser", "saved-noparams",
+              "saved2-saved", "saved-noshared")
 
 
 def _events(tier, length_total, m):
@@ -109,7 +110,11 @@ def _mtl_graph(kind, m):
     a = torch.tensor([0.7, -1.3, 2.1], dtype=torch.float64, requires_grad=True)
     b = torch.tensor(1.5, dtype=torch.float64, requires_grad=True)
     trunk, head = kind.split("-")
-    f = a * b if trunk == "saved" else a + b
+    noshared = head == "noshared"  # explicit shared_params=[]: only the heads are differentiated (and freed or not, as asked)
+    if noshared:
+        head = "saved"
+    f = a * b if trunk in ("saved", "saved2") else a + b
+    f2 = torch.sin(a) * b if trunk == "saved2" else None  # a SECOND feature tensor (with saved tensors of its own)
     ps, losses, extras = [], [], []
     for i in range(m):
         p = torch.tensor([0.5 + i, -1.0, 2.0 - i], dtype=torch.float64, requires_grad=True)
@@ -133,8 +138,10 @@ def _mtl_graph(kind, m):
             losses.append((f * p).sum() + pen)
             extras.append((f"penalty{i}", pen, [p]))
         else:
-            losses.append((f * p).sum() if head == "saved" else (f + p).sum())
-    return dict(params=[a, b], feats=[f], losses=losses, tparams=[[p] if p is not None else [] for p in ps], extras=extras)
+            losses.append(((f * p).sum() if head == "saved" else (f + p).sum()) + (0 if f2 is None else (f2 * f2 * p).sum()))
+    if noshared:
+        return dict(params=[a, b], shared_arg=[], feats=[f], losses=losses, tparams=[[p] for p in ps], extras=extras)
+    return dict(params=[a, b], feats=[f] if f2 is None else [f, f2], losses=losses, tparams=[[p] if p is not None else [] for p in ps], extras=extras)
 
 
 def _try(fn):
@@ -158,10 +165,11 @@ def _apply(ep, G, ev, torchjd_side):
             return _try(lambda: backward(G["outs"], Sum(), allp, r, k))
         gts = [torch.ones_like(o) for o in G["outs"]]
         return _try(lambda: torch.autograd.backward(G["outs"], grad_tensors=gts, inputs=allp, retain_graph=r))
-    allp = G["params"] + [p for tp in G["tparams"] for p in tp]
+    shared = G.get("shared_arg", G["params"])
+    allp = shared + [p for tp in G["tparams"] for p in tp]
     if kind == "T" and torchjd_side:
         # positional form (losses, features, aggregator, tasks_params, shared_params, retain_graph, parallel_chunk_size)
-        return _try(lambda: mtl_backward(G["losses"], G["feats"], Sum(), G["tparams"], G["params"], r, k))
+        return _try(lambda: mtl_backward(G["losses"], G["feats"], Sum(), G["tparams"], shared, r, k))
     return _try(lambda: torch.autograd.backward(G["losses"], inputs=allp, retain_graph=r))
 
 
